@@ -32,6 +32,14 @@ PATH_SUFFIX = 'o.dat'
 PATH_SUFFIX2 = 'p.dat'
 
 
+def norm_path(path):
+    """A trailing separator does not change what a path names: 'd/' == 'd' (None = no path)."""
+    if path is None:
+        return None
+    path = path.rstrip('/')
+    return path if path else None
+
+
 class Grey(Exception):
     """The case is outside what the statement decides (excluded from judgement)."""
 
@@ -64,8 +72,8 @@ def parse_ref(text, stage, directs):
     if m is None and head in directs:
         return ('direct', body, method)
     if m is not None:
-        return ('comp', int(m.group(1)), m.group(2), rest if sep else None, method)
-    return ('comp', stage, head, rest if sep else None, method)
+        return ('comp', int(m.group(1)), m.group(2), norm_path(rest) if sep else None, method)
+    return ('comp', stage, head, norm_path(rest) if sep else None, method)
 
 
 def parse_token(tok, stage, directs, methods):
@@ -146,16 +154,16 @@ def expand(case):
                 else:
                     prods = [pid(p, k) for k in range(rep[p])]   # single consumer: all copies, index order
                 for pr in prods:
-                    refs.append(('comp', pr[0], pr[1], e['file'], e['method']))
+                    refs.append(('comp', pr[0], pr[1], norm_path(e['file']), e['method']))
                     edges.add((pr, me))
                 if len(prods) > 1:
-                    groups.append([('comp', pr[0], pr[1], e['file'], e['method']) for pr in prods])
+                    groups.append([('comp', pr[0], pr[1], norm_path(e['file']), e['method']) for pr in prods])
                 if e.get('arg'):
                     args.append(('lit', '-i'))
                     sufs = {'path': ('/' + PATH_SUFFIX,), 'path2': ('/' + PATH_SUFFIX, '/' + PATH_SUFFIX2)}
                     for suf in sufs.get(e['arg'], (None,)):
                         for pr in prods:        # each token expands in place
-                            args.append(('ref', ('comp', pr[0], pr[1], e['file'], e['method']), suf))
+                            args.append(('ref', ('comp', pr[0], pr[1], norm_path(e['file']), e['method']), suf))
             for d in c.get('direct') or []:
                 body, method = d.split(':')
                 refs.append(('direct', body, method))
